@@ -3805,6 +3805,15 @@ def generate(ctx):
                         continue
                     ctx.label("threshold/foreign-keys" if f else "threshold/script-keys")
                     yield ("prop", "finalize_threshold", [kind_i, m, n, k, f])
+    # ---- EVERY threshold m = 1..16 (each OP_m / OP_n small-integer op code of a multisig script) through the finaliser
+    # and, for m = 4 (5, 6 in the thorough tier), through the whole workflow: m-of-m wallets, all signatures present
+    for m in range(1, 17):
+        kind_i = 3 + (m % 3) if m < 16 else 4          # 16 keys exceed the 520-byte P2SH push; p2wsh has no such limit
+        ctx.label("threshold/every-m")
+        yield ("prop", "finalize_threshold", [kind_i, m, m, m, 0])
+        if m == 4 or (m in (5, 6) and not quick):      # the workflow predicate walks signer orders: small m only
+            ctx.label("workflow/every-m")
+            yield ("prop", "workflow", [3 + ((m + 1) % 3), m, m, 1, 0])
     # ---- workflows
     grid = workflow_grid(ctx)
     for (kind_i, m, n, n_inputs, flags) in grid:
